@@ -1,7 +1,8 @@
 #!/bin/bash
 # Nothing to build: stdlib-only ast checkers. Sanity: the interpreter can import the engine.
 cd "$(dirname "${BASH_SOURCE[0]}")"
-if command -v python3-vt >/dev/null 2>&1; then PY=python3-vt
-elif [ -x /venv/bin/python ]; then PY=/venv/bin/python
+# the repository's own interpreter parses whatever syntax the repository may use; stdlib only is needed
+if [ -x /venv/bin/python ]; then PY=/venv/bin/python
+elif command -v python3-vt >/dev/null 2>&1; then PY=python3-vt
 else PY=python3; fi
 PYTHONDONTWRITEBYTECODE=1 "$PY" -c "import snt_static.model, snt_static.literal, snt_static.report; print('snt_static ok')"
